@@ -28,7 +28,7 @@ RULE = (
     "every cut; the acceptor's three timeouts are all different (acse/dimse/network e.g. 1/2/4..6 or 3/1.5/5) and the gaps are drawn relative to "
     "them (just below / just above the ACSE and DIMSE timeouts, between the ACSE and the network timeout, just below the network timeout), every "
     "PDU as a whole faster than the network timeout and the A-ASSOCIATE-RQ faster than the ARTIM (= ACSE) timeout; the real acceptor must receive "
-    "exactly the PDUs sent, answer every request and end released. A third sub-check ('delays_req') mirrors it: a pynetdicom requestor "
+    "exactly the PDUs sent, answer every request and end released (between two PDUs the peer may also pause for less than the network timeout: the time the previous PDU took to arrive must not count against that pause). A third sub-check ('delays_req') mirrors it: a pynetdicom requestor "
     "(associate, C-ECHO, release) against a raw acceptor whose three answers arrive in segments with gaps below the network timeout (any gap "
     "when it is None) that may exceed the connection timeout; associate, echo and release must all succeed. "
     "Non-trivial = a cut strictly inside a 6-byte header, an EOF strictly inside a PDU, two PDUs (or the tail of one and the head of the next) in one "
@@ -290,7 +290,11 @@ def check_delays(ctx, case):
     pdus = [R.ref_encode(SC.RAW_RQ)] + [SC.dimse_bytes("echo", i + 1) for i in range(case["n_echo"])] + [R.ref_encode(R.ReleaseRQ())]
     script = []
     took, all_gaps, where = [], [], set()
+    pauses = list(case.get("pauses") or [])
     for i, p in enumerate(pdus):
+        if i and i < len(pauses) and pauses[i]:
+            # the peer thinks before its next PDU: idle time between two PDUs, itself below the network timeout
+            script.append(["sleep", pauses[i]])
         cuts = sorted(set(c for c in case["cuts"][i] if 0 < c < len(p)))
         gaps = list(case["gaps"][i]) if case.get("gaps") is not None else [case["gap"]] * len(cuts)
         gaps = (gaps + [0.0] * len(cuts))[: len(cuts)]
@@ -311,11 +315,14 @@ def check_delays(ctx, case):
     n_seg = sum(len([c for c in cs if c > 0]) for cs in case["cuts"])
     longest = max(took, default=0)
     # the idle timer runs from the previous complete PDU: allow 0.75 s for the peer's own turn-around (virtual quanta) before this PDU starts
-    slow = longest + 0.75 > network
+    # (an idle pause in front of a PDU counts towards it: the timer keeps running from the previous complete PDU until this one is complete)
+    slow = max((took[i] + (pauses[i] if i < len(pauses) else 0.0) for i in range(len(pdus))), default=0) + 0.75 > network
     # the ARTIM timer (= acse_timeout) runs from the transport connection until the A-ASSOCIATE-RQ has been received: a request that takes
     # longer may legitimately be cut off (PS3.8 9.1.5) - outside "within the configured timeouts"
     rq_slow = took[0] + 0.75 > acse
     classes = ["delays", "pdu-slower-than-network-timeout" if slow else "pdu-faster-than-network-timeout"] + sorted("gap-in-" + w for w in where)
+    if any(i and i < len(pauses) and pauses[i] and took[i - 1] and took[i - 1] + pauses[i] > network for i in range(len(pdus))):
+        classes.append("slow-pdu-then-pause:sum-above-network-timeout")
     if acse != dimse and dimse != network and acse != network:
         classes.append("three-different-timeouts")
     for g in all_gaps:
@@ -441,7 +448,9 @@ def run(ctx):
                 gs.append(round(g * 4) / 4)
             cuts.append(cs)
             gaps.append(gs)
-        return {"acse": acse, "dimse": dimse, "network": network, "n_echo": n_echo, "cuts": cuts, "gaps": gaps,
+        # idle time before PDU i (i >= 1), itself below the network timeout; together with the time the previous PDU took it may exceed it
+        pauses = [0.0] + [draw(st.sampled_from([0.0, 0.0, network - 0.75, network - 1.0, network / 2, 1.0])) for _ in lens[1:]]
+        return {"acse": acse, "dimse": dimse, "network": network, "n_echo": n_echo, "cuts": cuts, "gaps": gaps, "pauses": pauses,
                 "policy": draw(st.sampled_from(["fifo", "random"])), "seed": draw(st.integers(0, 9999))}
 
     ctx.hyp("delays", case(), 400 if ctx.quick else 1200)
